@@ -170,6 +170,11 @@ def gen(rng, tier, cfg, consts):
     def ri():
         r = rng.random()
         if r < 0.15: return rng.choice([0, 1, -1, 2, 1000000000, -1000000000, 16777217, 2**53 + 1, 123456789012])
+        if r < 0.35:
+            # midpoint between adjacent binary32 values +- 1 at |n| >= 2^53 (a detour through f64 rounds twice)
+            k = rng.randint(31, 39); m = rng.getrandbits(24) | (1 << 23)
+            v = min((m << k) + (1 << (k - 1)) + rng.choice([-1, 1]), (1 << 63) - 1)
+            return v if rng.random() < 0.5 else -v
         return rng.randint(-10**rng.randint(1, 12), 10**rng.randint(1, 12))
     for u in units:
         for o in range(1, 9):
